@@ -22,12 +22,13 @@ import (
 // The driver has two modes and no oracle in either: it concretises a document (a sequence of
 // fragments exported by TLC), puts a show statement at a hole, calls the public API and logs.
 //
-//   -mode ctx   case {id, frags}: for every fragment boundary i = 0..n the document is built with
-//               `{{ x }}` inserted at boundary i and BuildOptions.ExpandedTransformer records the
-//               Context the real lexer gave to that ast.Show, and whether it sits in an ast.URL node
-//               (0 no, 1 URL, 2 srcset).  Observation {id, frags, ctx: [...], url: [...]};
-//               ctx -1 = the document does not build, -2 = it builds but contains no Show node (the
-//               lexer did not lex the hole), -3 = host panic.
+//   -mode ctx   case {id, frags}: the document is built with `{{ x }}` appended and
+//               BuildOptions.ExpandedTransformer records the Context the real lexer gave to that
+//               ast.Show, and whether it sits in an ast.URL node (0 no, 1 URL, 2 srcset).
+//               Observation {id, ctx, url}; ctx -1 = the document does not build, -2 = it builds but
+//               contains no Show node (the lexer did not lex the hole), -3 = host panic.
+//               (-mode ctxall: the same for a hole at every fragment boundary i = 0..n of the
+//               document, observation {id, frags, ctx: [...], url: [...]}.)
 //   -mode conf  case {id, frags, hole, via, pt}: the document with a show at boundary `hole` is
 //               rendered with every value of the dictionary below (and with the benign value of the
 //               same Go type and shape).  via selects how the value reaches the hole: "direct"
@@ -214,6 +215,12 @@ func contextAt(k *kase, hole int) (ctx, url int) {
 	return v.ctx[0], v.url[0]
 }
 
+// ctxEnd: the hole at the end of the document only (mode ctx; one document per node of the prefix tree)
+func ctxEnd(k *kase) []any {
+	c, u := contextAt(k, len(k.Frags))
+	return []any{map[string]any{"id": k.ID, "ctx": c, "url": u}}
+}
+
 func ctxObs(k *kase) []any {
 	n := len(k.Frags)
 	ctx := make([]int, n+1)
@@ -226,14 +233,17 @@ func ctxObs(k *kase) []any {
 
 // ---- mode conf ------------------------------------------------------------------------------------
 
-func render(t *scriggo.Template, v any) (out []byte, oc string) {
+func render(t *scriggo.Template, typ reflect.Type, v any) (out []byte, oc string) {
 	defer func() {
 		if r := recover(); r != nil {
 			out, oc = []byte(fmt.Sprint(r)), "hostpanic"
 		}
 	}()
+	// the global x is declared as (*T)(nil): its value is supplied as a *T (T may be an interface type)
+	p := reflect.New(typ)
+	p.Elem().Set(reflect.ValueOf(v))
 	var buf bytes.Buffer
-	if err := t.Run(&buf, map[string]any{"x": v}, nil); err != nil {
+	if err := t.Run(&buf, map[string]any{"x": p.Interface()}, nil); err != nil {
 		return []byte(err.Error()), "runerr"
 	}
 	return buf.Bytes(), "ok"
@@ -287,12 +297,13 @@ func confObs(k *kase) []any {
 		if oc, bad := failed[typ]; bad {
 			rec["oc"], rec["out"] = oc, []int{}
 		} else {
-			out, oc := render(t, e.val)
+			out, oc := render(t, typ, e.val)
 			rec["oc"] = oc
 			if oc == "ok" {
 				rec["out"] = drv.Ints(out)
 			} else {
 				rec["out"] = []int{}
+				rec["msg"] = string(out)
 			}
 		}
 		outs = append(outs, rec)
@@ -312,10 +323,13 @@ func main() {
 			if k.Frags == nil {
 				k.Frags = [][]int{}
 			}
-			if *mode == "conf" {
+			switch *mode {
+			case "conf":
 				return confObs(&k)
+			case "ctxall":
+				return ctxObs(&k)
 			}
-			return ctxObs(&k)
+			return ctxEnd(&k)
 		},
 	})
 }
